@@ -1,5 +1,6 @@
 import GqlProofs.ExecBasic
 import GqlProofs.ExecLog
+import GqlProofs.ExecSerial
 import GqlProofs.ExecCollect3
 import GqlProofs.ExecExample
 /-! # C13 — Top-level mutation fields execute serially in document order
@@ -12,76 +13,6 @@ point where the algorithm forces it). The statements hold for every operation ty
 serial throughout); the property claims them of mutations, and that is what the harness compares on the real
 executor (`topLevelSerial`, `topLevelOrder`, 20 repetitions per case). -/
 namespace GqlModel.Exec
-
-/-- first response-path segment of a log entry is the top-level key `k` -/
-def underTop (k : String) (e : LogEntry) : Bool := e.path.head? == some (PathSeg.key k)
-
-/-- the block of the top-level field `k`: everything logged under `k` (its resolver, the resolvers of its
-sub-selection, work it deferred), in log order -/
-def blockOf (log : List LogEntry) (k : String) : List LogEntry := log.filter (underTop k)
-
-/-- one block per top-level response key, in the order of the keys -/
-def blocksOf (keys : List String) (log : List LogEntry) : List (List LogEntry) := keys.map (blockOf log)
-
-/-- `log` is the concatenation of one contiguous (possibly empty) segment per key, in key order, the segment of `k`
-lying entirely under `k` -/
-def SerialBlocks : List String → List LogEntry → Prop
-  | [], log => log = []
-  | k :: ks, log => ∃ b rest, log = b ++ rest ∧ (∀ e, e ∈ b → underTop k e = true) ∧ SerialBlocks ks rest
-
-theorem serialBlocks_of_blocks : ∀ {ks : List String} {log : List LogEntry}, Blocks [] ks log → SerialBlocks ks log
-  | [], _, h => h
-  | k :: ks, _, h => by
-    obtain ⟨b, rest, rfl, hb, -, hr⟩ := h
-    refine ⟨b, rest, rfl, ?_, serialBlocks_of_blocks hr⟩
-    intro e he
-    obtain ⟨t, ht⟩ := hb e he
-    simp only [underTop, ← ht, List.nil_append, List.singleton_append, List.head?_cons, beq_self_eq_true]
-
-theorem SerialBlocks.mem : ∀ {ks : List String} {log : List LogEntry}, SerialBlocks ks log →
-    ∀ e, e ∈ log → ∃ k, k ∈ ks ∧ underTop k e = true
-  | [], log, h, e, he => by simp only [SerialBlocks] at h; subst h; cases he
-  | k :: ks, log, h, e, he => by
-    obtain ⟨b, rest, rfl, hb, hr⟩ := h
-    rcases List.mem_append.mp he with he | he
-    · exact ⟨k, List.mem_cons_self, hb e he⟩
-    · obtain ⟨k', hk', hp⟩ := SerialBlocks.mem hr e he
-      exact ⟨k', List.mem_cons_of_mem _ hk', hp⟩
-
-theorem underTop_unique {k k' : String} {e : LogEntry} (h : underTop k e = true) (h' : underTop k' e = true) : k = k' := by
-  simp only [underTop, beq_iff_eq] at h h'
-  rw [h] at h'
-  simpa using h'
-
-/-- with pairwise distinct keys the decomposition is the one by first path segment -/
-theorem SerialBlocks.eq_flatten : ∀ {ks : List String} {log : List LogEntry}, SerialBlocks ks log → ks.Nodup →
-    log = (blocksOf ks log).flatten
-  | [], log, h, _ => by simp only [SerialBlocks] at h; subst h; rfl
-  | k :: ks, log, h, hn => by
-    obtain ⟨b, rest, rfl, hb, hr⟩ := h
-    rw [List.nodup_cons] at hn
-    have ih := SerialBlocks.eq_flatten hr hn.2
-    have h1 : blockOf (b ++ rest) k = b := by
-      simp only [blockOf, List.filter_append]
-      have : rest.filter (underTop k) = [] := by
-        rw [List.filter_eq_nil_iff]
-        intro e he hk
-        obtain ⟨k', hk', hp⟩ := hr.mem e he
-        exact hn.1 (underTop_unique hk hp ▸ hk')
-      rw [this, List.append_nil, List.filter_eq_self]
-      exact hb
-    have h2 : ∀ k', k' ∈ ks → blockOf (b ++ rest) k' = blockOf rest k' := by
-      intro k' hk'
-      simp only [blockOf, List.filter_append]
-      have : b.filter (underTop k') = [] := by
-        rw [List.filter_eq_nil_iff]
-        intro e he hk
-        exact hn.1 (underTop_unique (hb e he) hk ▸ hk')
-      rw [this, List.nil_append]
-    simp only [blocksOf, List.map_cons, List.flatten_cons, h1]
-    congr 1
-    rw [List.map_congr_left h2]
-    exact ih
 
 /-- C13: the log of a request is the concatenation, in the order of the top-level groups (response keys of the
 collected root selection), of one contiguous block per top-level group; every entry of a block has that group's key
